@@ -807,6 +807,41 @@ def like_registers(rep, rule, idx, c, allowed=()):
     return n
 
 
+def late_sized_signals(rep, rule, idx, class_spec, collections):
+    """A signal whose shape depends on how many items were add()-ed (`Signal(range(len(self._intrs)))`) is created where that number
+    is final for the hardware being built -- in elaborate().  Created anywhere else (a lazily evaluated property, the constructor, a
+    cache) its width is fixed by the items present at that moment, and items added later do not fit."""
+    import ast as _ast
+    cls = idx.find_class(class_spec)
+    if cls is None:
+        rep.unk(rule, "-", f"class {class_spec}", "not found")
+        return
+    # methods that run as part of elaborate(): elaborate itself and private helpers that receive the module
+    el = {"elaborate"}
+    for name, fs in cls.methods.items():
+        for f in fs:
+            if name.startswith("_") and not name.startswith("__") and len(f.params) > 1 and f.params[1] in ("m", "module"):
+                el.add(name)
+    n = 0
+    for name, fs in cls.methods.items():
+        for f in fs:
+            for x in _ast.walk(f.node):
+                if isinstance(x, _ast.Call) and _ast.unparse(x.func) in ("Signal", "Signal.like"):
+                    txt = _ast.unparse(x)
+                    dep = [c_ for c_ in collections if f"len(self.{c_})" in txt]
+                    if not dep:
+                        continue
+                    n += 1
+                    what = f"`{txt[:70]}` is sized when the hardware is built"
+                    if name in el:
+                        rep.ok(rule, f.site, what, "created in elaborate()", nontrivial=False)
+                    else:
+                        rep.bad(rule, f.site, what, f"created in {f.qual}(), not in elaborate(): its width is fixed by the {dep[0].lstrip('_')} present at the "
+                                "first call; items add()-ed afterwards get indices the signal cannot hold (they are never granted / selected)",
+                                line=x.lineno)
+    return n
+
+
 MUTATING_METHODS = {"pop", "append", "add", "insert", "remove", "update", "extend", "clear", "setdefault", "popitem", "discard", "sort",
                     "reverse", "freeze", "assign", "send", "close", "__setitem__", "__delitem__", "popleft", "appendleft"}
 
